@@ -27,6 +27,8 @@ CONSTANTS B,               \* units per block
           Dev,                        \* "none" or the name of a deviation
           FailIds,                    \* content ids whose block makes the compressor fail (the worker returns an error; the pool records it)
           FinishChecksStatus,         \* TRUE = repaired tree: sqfs_block_processor_finish / sync look at the pool status after draining
+          ExplicitInputs,             \* {} or a set of inputs given from outside (families the general bounds cannot reach, e.g. fragment blocks
+                                      \* that are on disk / cached / raw / compressed in a particular order)
           ChainSeq                    \* <<>>, or a sequence of distinct content ids: the inputs are then the long collision chain
                                       \* (one single-block file per id, all of one stored size and one checksum) followed by nothing or by a
                                       \* copy of one of them - the candidate search of deduplicate_blocks at a depth the general bounds cannot reach
@@ -262,7 +264,8 @@ Tails     == {<<>>} \cup {<<[c |-> c, n |-> n]>> : c \in ContentIds, n \in TailS
 FileSpecs == [blocks : BlockSeqs, tail : Tails, flags : FlagSets]
 ChainFile(c) == [blocks |-> <<c>>, tail |-> <<>>, flags |-> {}]
 ChainBase == [i \in 1..Len(ChainSeq) |-> ChainFile(ChainSeq[i])]
-Inputs    == IF ChainSeq = <<>> THEN UNION {[1..k -> FileSpecs] : k \in 1..MaxFiles}
+Inputs    == IF ExplicitInputs # {} THEN ExplicitInputs
+             ELSE IF ChainSeq = <<>> THEN UNION {[1..k -> FileSpecs] : k \in 1..MaxFiles}
              ELSE {SubSeq(ChainBase, 1, k) : k \in 2..Len(ChainSeq)} \cup {Append(ChainBase, ChainFile(ChainSeq[j])) : j \in 1..Len(ChainSeq)}
 Oracles   == IF Dev = "PoolUnordered" THEN {<<0, 0, 0, 0, 0, 0>>, <<1, 0, 1, 0, 1, 0>>, <<1, 1, 1, 1, 1, 1>>, <<0, 1, 2, 0, 1, 2>>}
              ELSE {<<>>}
